@@ -11,7 +11,7 @@ T = {
  ("C03","b"): ("other_property","C04, C05","C04:wrong_answer:replay_events:.jsonl:drop_last_line:tail=message:after_fault ; C05:recovered_cache_not_transparent:replay_events:...:in_flight=msg70k","crash-recovery scan that never grows beyond 64 KiB: C03 (no crash in its quantifier) is not affected. C04 caught it as built (300 KiB message + drop-last-line fault); C05 catches it since 70 KiB in-flight frames were added"),
  ("C04","a"): ("caught_after_strengthening","C04","C04:wrong_answer:compiled_context:.mr.v1.jsonl:truncate_to_0:tail=run_ended:after_fault","missed: the wrong answer had the same (query, file, fault) signature as known finding KF-C04-A and was swallowed by it. Signatures now carry the kind of the thread's last frame (what the open-time recovery can see) and the known findings are regular expressions that list exactly the tails for which the unmodified code fails"),
  ("C04","b"): ("caught_after_strengthening","C04","C04:wrong_answer:compiled_context:none:none:tail=message:warm_authority","missed twice: (1) no history whose messages+runs sidecar exceeds the first tail window (40 x 20 KiB thread added), (2) the 'truth' side of the differential rebuilt its caches with the first query and then answered from the same fast path; it now removes the cache directory before EVERY query. Same patch as C08-2a, which C08 caught as built"),
- ("C05","a"): ("caught_after_strengthening","C05","C05:recovered_then_appended_cache_not_transparent:compaction_cut_points_v1:...","missed: the recovery oracle asked replay_events first (which rebuilds the caches) and appended only after other operations. It now appends first, repeats the differential after the append, and asks in both orders (replay first / replay last) on separate copies. The same extension exposed a genuine defect of the unmodified tree (fix 12eecb2)"),
+ ("C05","a"): ("neutralised_by_fix","-","-","caught by C05 on the tree it was written against, after the recovery oracle was strengthened (append as the first operation after the restart, the differential repeated after it, both query orders) - which also exposed the genuine defect repaired by 12eecb2. Fix 833d7be (an append never re-creates a lost cache member: without a full sidecar the family is dropped) then made the store robust against this change: the missing sidecar is no longer rebuilt before the append, but the append no longer starts a partial family either. C05 and C04 hold under it"),
  ("C05","b"): ("neutralised_by_fix","-","-","narrowing of the open-time lag check (same patch as C04-2a). Since fix 12eecb2 a crash inside the cache updates leaves a marker and the whole family is dropped at open, so under this change every crash point still recovers correctly: C05 holds. The state its demonstration builds by hand is no longer reachable by a crash. The cache-fault path of the same change is a C04 violation and is caught there"),
  ("C06","a"): ("caught_after_strengthening","C06","C06:order_or_identity:TaskTwoEmitters / C06:lost_frame:TaskTwoEmitters","missed: needs two emitters of one task; a harness with two emitters (stdout / stderr readers) and one subscriber was added (910 executions, <=2 preemptions)"),
  ("C06","b"): ("not_covered","-","-","needs EventLog::append to FAIL (disk full) while the frame is still published. I/O errors are outside the alphabet of every check here (crashes are the only environment fault modelled); DESIGN.md section 5 says so. Not detected"),
